@@ -169,8 +169,9 @@ func c41SynSent(port int) int {
 }
 
 type c41Resolver struct {
-	n    int
-	hang bool
+	n     int
+	hang  bool
+	delay time.Duration // answer only after this long (or when ctx ends)
 }
 
 func (r c41Resolver) LookupIPAddr(ctx context.Context, _ string) ([]net.IPAddr, error) {
@@ -178,11 +179,31 @@ func (r c41Resolver) LookupIPAddr(ctx context.Context, _ string) ([]net.IPAddr, 
 		<-ctx.Done()
 		return nil, ctx.Err()
 	}
+	if r.delay > 0 {
+		select {
+		case <-time.After(r.delay):
+		case <-ctx.Done():
+			return nil, ctx.Err()
+		}
+	}
 	var out []net.IPAddr
 	for i := 0; i < r.n; i++ {
 		out = append(out, net.IPAddr{IP: net.ParseIP(c41IP(i))})
 	}
 	return out, nil
+}
+
+// c41DelayFor answers one host name at once and every other one through inner.
+type c41DelayFor struct {
+	fast  string
+	inner c41Resolver
+}
+
+func (r c41DelayFor) LookupIPAddr(ctx context.Context, host string) ([]net.IPAddr, error) {
+	if host == r.fast {
+		return c41Resolver{n: r.inner.n}.LookupIPAddr(ctx, host)
+	}
+	return r.inner.LookupIPAddr(ctx, host)
 }
 
 type c41Result struct {
@@ -264,7 +285,7 @@ func init() {
 		ID: "C41",
 		Rule: "rot: fake Resolver returning 1..4 loopback addresses whose endpoints accept / refuse (bound, not listening) / hang (full backlog), every accept/refuse pattern, " +
 			"rotation counter left natural or set through an exported setter to values around multiples of n and around 2^32 (wrap-around), 1..3 consecutive dials; " +
-			"to: timeout paths (deadline already passed, hanging connect, timer while waiting for a slot, waiting 3.6 s for the only slot and THEN hanging in connect - the timeout still counts from the call, hanging resolver) with and without DNS resolution; " +
+			"to: timeout paths (deadline already passed, hanging connect, timer while waiting for a slot, waiting 3.6 s for the only slot and THEN hanging in connect - the timeout still counts from the call, a Resolver that answers only after 3.6 s in front of a hanging endpoint / a held slot - the lookup time counts against the timeout, hanging resolver) with and without DNS resolution; " +
 			"sem: every combination of DisableDNSResolution x DNSCacheDuration zero/set x LocalAddr x Resolver nil/fake, Concurrency N in 1..3 with N hanging dials holding every slot, further dials to an accepting endpoint that must time out without connecting, waiters that must get the freed slots. " +
 			"multi: M > N simultaneous dials to a host whose 1..4 addresses refuse or hang in every order (fail-over attempts), on endpoints private to the case: the connect attempts in progress are counted by the kernel (sockets in SYN_SENT towards the endpoints, /proc/net/tcp) and must never exceed N. " +
 			"non-trivial = rotation over >=2 addresses with a refusing one / any sem or timeout scenario; distinct = distinct input",
@@ -460,6 +481,56 @@ func init() {
 						extra = &Verdict{VSpec, "slot-leaked", fmt.Sprintf("%d semaphore slots still taken after every dial returned", l)}
 					}
 					line = Line("trydial", B("0"), B("1"), B("t"), B("c"))
+				case "slowdns", "slowdnswait":
+					// the Resolver answers only after R (more than the slack) and then the connect phase runs into the
+					// timeout T > R — on a hanging endpoint, or waiting for the only slot: the dial must still return T after
+					// the CALL (+ slack); the time spent in the lookup counts against the timeout.
+					via = "dns"
+					R := c41Slack + 600*time.Millisecond
+					T = R + 400*time.Millisecond
+					lo, hi = T-10*time.Millisecond, T+c41Slack
+					d := &fasthttp.TCPDialer{Concurrency: 1, Resolver: c41Resolver{n: 1, delay: R}}
+					if ms%2 == 1 {
+						d.DNSCacheDuration = 10 * time.Minute
+					}
+					defer d.FlushDNSCache()
+					hangUp := fmt.Sprintf("%s:%d", c41IP(0), hg.port)
+					wantUp = hangUp
+					target := fmt.Sprintf("slow-%s.test:%d", mode, hg.port)
+					var holder chan c41Result
+					if mode == "slowdnswait" {
+						// the only slot is held (by a dial without name resolution semantics of its own: an IP literal
+						// still goes through the resolver, so use a second host name resolved at once by a cache entry)
+						d2hold := T + R + time.Second
+						holder = make(chan c41Result, 1)
+						d.Resolver = c41DelayFor{fast: "holder.test", inner: c41Resolver{n: 1, delay: R}}
+						go func() {
+							holder <- c41Dial(func() (net.Conn, error) {
+								return d.DialTimeout(fmt.Sprintf("holder.test:%d", hg.port), d2hold)
+							}, d2hold+8*time.Second)
+						}()
+						okHeld := false
+						for t0 := time.Now(); time.Since(t0) < time.Second; time.Sleep(time.Millisecond) {
+							if l, _ := fasthttp.VerifTCPDialerSem(d); l == 1 {
+								okHeld = true
+								break
+							}
+						}
+						if !okHeld {
+							<-holder
+							return nil
+						}
+						line = Line("trydial", B("0"), B("1"), B("t"), B("c"))
+					} else {
+						line = Line("trydial", B("0"), B("1"), B("i"), B("t"))
+					}
+					r = c41Dial(func() (net.Conn, error) { return d.DialTimeout(target, T) }, 2*T+8*time.Second)
+					if holder != nil {
+						h := <-holder
+						if h.end.Before(r.end) {
+							return nil // the slot was not held until the dial under test returned: not the scenario
+						}
+					}
 				case "waithang":
 					// Concurrency=1: the only slot is held for W by a dial to the hanging endpoint; the dial under test
 					// (timeout T > W) first waits for the slot, then hangs in connect: it must still return T after the
@@ -626,6 +697,13 @@ func init() {
 					emit("to", B("semwait"), N(80+r.Intn(200)), B(via))
 				}
 				emit("to", B("resolverhang"), N(60+r.Intn(200)), B("dns"))
+			}
+			// slow (but successful) name lookup in front of a hanging endpoint: the lookup time counts against the timeout
+			emit("to", B("slowdns"), N(0), B("dns"))
+			emit("to", B("slowdns"), N(1), B("dns"))
+			if tier == "thorough" {
+				emit("to", B("slowdnswait"), N(0), B("dns"))
+				emit("to", B("slowdnswait"), N(1), B("dns"))
 			}
 			// wait for a slot, then hang in connect (takes about 4 s; runs beside the other cases)
 			emit("to", B("waithang"), N(0), B("nodns"))
